@@ -69,7 +69,7 @@ def _g1(ctx: Context) -> None:
         ("M2 carries Salt", pp.presence_edges(ctx, cfg, T, hap.TLV_SALT, is_r0)),
     ):
         ctx.must_pass("C03.G1", cfg, rets[0], name, edges, desc=f"part1 returns only after: {name}")
-    t = strip_sites(T.of(cfg, rets[0], rets[0].exprs[0]))
+    t = pp.get_as_item(strip_sites(T.of(cfg, rets[0], rets[0].exprs[0])))
     ck.check("C03.G1", t == ("tuple", (sub(r0, const(hap.TLV_SALT)), sub(r0, const(hap.TLV_PUBLIC_KEY)))), "part1 returns (M2 salt, M2 public key)", f"{ctx.fkey(f)}:return",
              f"part1 returns {show(t, 120)}", ctx.loc(f, rets[0]))
     # its consumers unpack in the same order
@@ -99,7 +99,7 @@ def _vocab(ctx: Context):
 
 def _n(t):
     """normalise constructor spellings (SrpClient(...), Decryptor(...)) to their __init__"""
-    t = _norm_ctor(t)
+    t = pp.get_as_item(_norm_ctor(t))
 
     def rec(x):
         if not isinstance(x, tuple):
